@@ -409,17 +409,30 @@ func firstGE(d []int, k int) int {
 // monIndex wraps a real index: every posting-list iterator it hands out is monitored against its own list.
 type monIndex struct {
 	search.Index
-	s    *session
-	kind string
-	idx  map[string][]int
+	s     *session
+	kind  string
+	idx   map[string][]int
+	cache map[string]*leafInfo
 }
 
 func (m *monIndex) Begin(token string) search.Iterator {
 	it := m.Index.Begin(token)
-	d := append([]int{}, m.idx[token]...)
-	sort.Ints(d)
-	g := m.s.graphs.by[dkey(d)]
-	return &monitor{s: m.s, inner: it, name: m.kind, q: map[string]interface{}{"k": "all", "t": token}, g: g}
+	if m.cache == nil {
+		m.cache = map[string]*leafInfo{}
+	}
+	li := m.cache[token]
+	if li == nil {
+		d := append([]int{}, m.idx[token]...)
+		sort.Ints(d)
+		li = &leafInfo{q: map[string]interface{}{"k": "all", "t": token}, g: m.s.graphs.by[dkey(d)]}
+		m.cache[token] = li
+	}
+	return &monitor{s: m.s, inner: it, name: m.kind, q: li.q, g: li.g}
+}
+
+type leafInfo struct {
+	q interface{}
+	g *dgraph
 }
 
 // monQuery wraps a real query node: the iterator its Compile returns is monitored against the node's denotation.
@@ -936,7 +949,7 @@ func runWalkCase(cp *walkCase) vh.Verdict {
 		index = &monIndex{Index: real, s: sess, kind: c.Kind, idx: c.Idx}
 	}
 	found := map[string]*violation{}
-	nfail := 0
+	nfail, nseq, ncalls := 0, 0, 0
 	which := c.Only
 	if len(which) == 0 {
 		for qi := range mdl.Queries {
@@ -961,6 +974,7 @@ func runWalkCase(cp *walkCase) vh.Verdict {
 		} else if qc.Q.K == "all" {
 			topName = c.Kind
 		}
+		topPlain := qc.Q.plain()
 		var paths [][]call
 		if c.Calls != nil {
 			for _, ec := range c.Calls {
@@ -975,18 +989,18 @@ func runWalkCase(cp *walkCase) vh.Verdict {
 		}
 		stats["queries"]++
 		for _, path := range paths {
-			stats["sequences"]++
+			nseq++
 			sess.first = nil
-			top := &monitor{s: sess, name: topName, q: qc.Q.plain(), g: dg}
-			var topCalls []string
+			top := &monitor{s: sess, name: topName, q: topPlain, g: dg, hist: make([]callRes, 0, 8)}
+			made := 0
 			p := vh.Catch(func() {
 				top.inner = query.Compile(index)
 				for _, cl := range path {
 					if top.cur < 0 {
 						break
 					}
-					topCalls = append(topCalls, cl.String())
-					stats["calls"]++
+					made++
+					ncalls++
 					if cl.adv {
 						top.Advance(tab.ids[cl.k])
 					} else {
@@ -1014,6 +1028,10 @@ func runWalkCase(cp *walkCase) vh.Verdict {
 			}
 			if v := sess.first; v != nil {
 				nfail++
+				var topCalls []string
+				for _, cl := range path[:made] {
+					topCalls = append(topCalls, cl.String())
+				}
 				v.Top, v.TopCalls = qc.Q.plain(), topCalls
 				if old, ok := found[v.Sig]; !ok || smaller(v, old) {
 					found[v.Sig] = v
@@ -1021,6 +1039,8 @@ func runWalkCase(cp *walkCase) vh.Verdict {
 			}
 		}
 	}
+	stats["sequences"] = nseq
+	stats["calls"] = ncalls
 	stats["node_calls"] = sess.calls
 	stats["used_after_false"] = sess.usedAfter
 	stats["unjudged_calls"] = sess.unjudged
